@@ -13,7 +13,8 @@ class SPEC:
             "{record for key k, advance by A / I-A / I (so deadlines EQUAL to the scan time are reached), expiry scan whose callback fails on a "
             "chosen subset of keys}, a snapshot (held keys, heap array with deadlines, item index consistency, readiness, retries) after every "
             "step and the advertised next expiry after every scan. Quick: ALL traces of length <= 5 over 2 keys (9-symbol alphabet), plus random "
-            "traces up to length 200 over 3 keys including flows that wait for correlation (retry / drop path). The heap array is compared "
+            "traces up to length 200 over 3 keys including flows that wait for correlation (retry / drop path), about 5 % of whose records lack one of "
+            "the non-pod correlate fields. The heap array is compared "
             "position by position with the container/heap model; the declarative scheduling spec (Ipfix.C06.checkSched/checkRec/checkScan/"
             "expectedExpiry, independent of the heap) is evaluated on every implementation snapshot. Non-trivial = a scan with at least one due item.")
     assumptions = ["active and inactive timeouts > 0 (with a zero timeout a re-armed item is due again at once; the scan still terminates since fix 7354df1)"]
@@ -74,6 +75,8 @@ def gen_cases(rng, tier):
                     ops.append(AG.inter_src(k, 100, 100 + cnt, stats))
                 else:
                     ops.append(AG.inter_dst(k, 100, 100 + cnt, stats))
+                # about 5 % of the records lack one of the non-pod correlate fields (another template)
+                ops[-1] = AG.sprinkle_absent([ops[-1]])[0]
                 ops.append("agg snap")
             elif r < 0.75:
                 ops += ["agg adv %d" % rng.choice([0, 1, A - 1, A, A + 1, I - A, I, I + 1, 50]), "agg snap"]
@@ -94,7 +97,7 @@ def gen_cases(rng, tier):
                     cnt += 1
                     f = rng2.choice([AG.intra, AG.intra, AG.inter_src, AG.inter_dst])
                     recs.append(f(rng2.choice([1, 2, 3]), 100, 100 + cnt, [x * cnt for x in STATS]))
-                ops += [AG.msg_op(recs), "agg snap"]
+                ops += [AG.msg_op(AG.sprinkle_absent(recs)), "agg snap"]
             elif r < 0.75:
                 ops += ["agg adv %d" % rng2.choice([0, 1, A - 1, A, A + 1, I - A, I, I + 1, 50]), "agg snap"]
             else:
